@@ -1,7 +1,9 @@
 package main
 
 import (
+	"encoding/json"
 	"fmt"
+	"os"
 	"math/rand"
 	"strings"
 	"time"
@@ -64,6 +66,7 @@ type fexec struct {
 	t       *trig
 	streams []*fstream
 	over    bool // the connection was ended on purpose
+	deadGot int64
 	maxWait time.Duration
 	steps   int
 }
@@ -72,13 +75,18 @@ func (x *fexec) rigT() bool { return x.t != nil }
 
 func (x *fexec) got(s *fstream) int64 { return x.l.Stream(s.sid).Got }
 
-func (x *fexec) sumGot() (sum int64) {
-	for _, s := range x.streams {
-		if !s.dead && s.sid != 0 {
-			sum += x.got(s)
+// sumGot: body bytes received on the streams that are not dead (every DATA
+// frame of the connection belongs to a script stream; the bytes of a stream
+// are frozen in deadGot when it is marked dead after a fence).
+func (x *fexec) sumGot() int64 { return x.l.DataBytes() - x.deadGot }
+
+func (x *fexec) kill(s *fstream) {
+	if !s.dead {
+		s.dead = true
+		if s.sid != 0 {
+			x.deadGot += x.got(s)
 		}
 	}
-	return
 }
 
 // want is what the ledger says must still arrive with the windows as they are.
@@ -178,7 +186,7 @@ func (x *fexec) settle() *finding {
 	}
 	l.Settle()
 	target := x.sumGot() + x.want()
-	ok, d := l.WaitUntil(watchdog, func() bool {
+	ok, total, d := l.WaitProgress(watchdog, 12*watchdog, func() bool {
 		g := x.sumGot()
 		if g > target {
 			return true
@@ -195,6 +203,11 @@ func (x *fexec) settle() *finding {
 	})
 	if d > x.maxWait {
 		x.maxWait = d
+	}
+	noteTotalWait(total)
+	if d > 3*time.Second && os.Getenv("VERIF_C12_DEBUG") != "" {
+		b, _ := json.Marshal(x.sc)
+		fmt.Fprintf(os.Stderr, "SLOWSETTLE %v step %d target %d streams %d frames %d %s\n", d, x.steps, target, len(x.streams), x.l.Stats().DataFrames, b)
 	}
 	if f := x.ledgerFinding(); f != nil {
 		return f
@@ -214,7 +227,7 @@ func (x *fexec) settle() *finding {
 			}
 		}
 		return &finding{class: pre + "queued-data-not-delivered", stall: true,
-			msg: fmt.Sprintf("step %d: %d of the %d bytes that the granted windows allow (connection allowance %d) did not arrive within %v:%s", x.steps, target-x.sumGot(), target, l.ConnAllowance(), watchdog, detail)}
+			msg: fmt.Sprintf("step %d: %d of the %d bytes that the granted windows allow (connection allowance %d) did not arrive (no frame at all for %v):%s", x.steps, target-x.sumGot(), target, l.ConnAllowance(), watchdog, detail)}
 	}
 	// T: answer the requests whose body is complete, so that RoundTrip returns.
 	if x.rigT() {
@@ -324,7 +337,7 @@ func (x *fexec) step(o fop) *finding {
 			return &finding{class: pre + "fence", msg: "fence after RST_STREAM: " + x.connEnded(), incon: x.connEnded() == ""}
 		}
 		run.Add("fences", 3)
-		s.dead = true
+		x.kill(s)
 		run.Add("streams-reset-by-peer", 1)
 	case "cancel":
 		s := x.stream(o)
@@ -343,7 +356,7 @@ func (x *fexec) step(o fop) *finding {
 			return &finding{class: pre + "fence", msg: "fence after cancel: " + x.connEnded(), incon: x.connEnded() == ""}
 		}
 		run.Add("fences", 3)
-		s.dead = true
+		x.kill(s)
 		run.Add("streams-reset-by-impl", 1)
 	case "overflow":
 		run.Add("overflow-attempts", 1)
@@ -393,7 +406,7 @@ func (x *fexec) step(o fop) *finding {
 			return &finding{class: pre + "fence", msg: "fence after overflow: " + x.connEnded(), incon: x.connEnded() == ""}
 		}
 		run.Add("fences", 3)
-		s.dead = true
+		x.kill(s)
 	case "iwoverflow":
 		// a SETTINGS_INITIAL_WINDOW_SIZE that lifts an open stream window above 2^31-1
 		run.Add("overflow-attempts", 1)
@@ -730,9 +743,9 @@ func runFenced(sc *fscript, gen *fgen) (res *finding) {
 		collectStats(x.l, sc.Rig)
 		noteWait(x.maxWait)
 		if x.s != nil {
-			run.Add("handler-starts", x.s.starts)
+			run.Add("handler-starts", x.s.nStarts())
 		} else {
-			run.Add("transport-requests", x.t.starts)
+			run.Add("transport-requests", x.t.nStarts())
 		}
 	}()
 	if gen != nil {
